@@ -12,6 +12,13 @@
   Atomicity: the RetryClient runs every request from one goroutine, one at a time, so a task is one
   atomic step; the environment acts only between tasks (§1). After every environment event the two
   actors (task goroutine, reconnect loop) run to their next blocking point ("maximal progress").
+
+  The blocking points of the reconnect loop are the phases: `.backoff` (the select on the back-off
+  timer, reconnclient.go:152-158; left by the environment event `.waitElapsed`), `.dialGate` (inside
+  DialContext; left by `.dialOk` / `.dialFail`), `.connackGate` (inside RetryClient.Connect), `.up`
+  (the select on Done / ctx / disconnected). Disconnect and the cancellation of the context given to
+  Connect (`.cancelCtx`, effective only until the first connection has succeeded) release the selects;
+  a DialContext in flight is not interrupted by Disconnect, the loop acts on its result.
 -/
 import MqttVerif.Model.Subs
 import MqttVerif.Model.PacketId
@@ -96,7 +103,8 @@ structure Broker where
 
 inductive Phase
   | idle                 -- ReconnectClient.Connect not called yet
-  | dialGate             -- the loop is in (or on its way to) Dialer.DialContext
+  | backoff              -- the loop waits `reconnWait` before dialling again (reconnclient.go:152-158)
+  | dialGate             -- the loop is inside Dialer.DialContext
   | connackGate (k : Nat)
   | up (k : Nat)
   | exited
@@ -136,6 +144,8 @@ structure World where
   waits : List Nat := []            -- exponents of the waits requested so far
   dials : Nat := 0                  -- DialContext calls so far
   connectReturned : Option Bool := none   -- what ReconnectClient.Connect returned to the app (session present)
+  ctxCancelled : Bool := false            -- the context given to ReconnectClient.Connect is done
+  connectErr : Bool := false              -- ReconnectClient.Connect returned the context's error
   -- environment
   broker : Broker := {}
   faults : List Fault := []
@@ -364,7 +374,7 @@ def loopReact (w : World) : World :=
   | .up k =>
     if (getConn w k).alive then w
     else if w.stopped then { w with phase := .exited }
-    else { w with phase := .dialGate, waits := w.waits ++ [w.waitExp], waitExp := w.waitExp + 1, dials := w.dials + 1 }
+    else { w with phase := .backoff, waits := w.waits ++ [w.waitExp], waitExp := w.waitExp + 1 }
   | _ => w
 
 /-- the task goroutine (retryclient.go:294-358) run to its next blocking point -/
@@ -400,6 +410,8 @@ inductive Ev
   | connackOk (sessionPresent : Bool) (inbound : List (Nat × Nat))   -- accepted; (message, qos ≤ 1) pushed at once
   | connackRefused
   | connackNever                            -- resolved by WithTimeout
+  | waitElapsed                             -- the back-off timer fires: the loop calls DialContext again
+  | cancelCtx                               -- the context given to ReconnectClient.Connect is cancelled / expires
   | peerClose                               -- the broker closes the idle connection
   | inbound (m qos : Nat)                   -- a PUBLISH from the broker on the current connection
   | handle (h : Nat)                        -- Handle(handler h)
@@ -423,11 +435,15 @@ def connectFailed (w : World) (k : Nat) : World :=
   let w := kill { w with connReady := true } k
   -- reconnclient.go:152-158: the select after a failure observes `disconnected` and returns
   if w.stopped then { w with phase := .exited }
-  else { w with phase := .dialGate, waits := w.waits ++ [w.waitExp], waitExp := w.waitExp + 1, dials := w.dials + 1 }
+  else { w with phase := .backoff, waits := w.waits ++ [w.waitExp], waitExp := w.waitExp + 1 }
 
 def step (w : World) : Ev → World
   | .start =>
-    if w.phase = .idle then { w with phase := .dialGate, dials := w.dials + 1 } else w
+    if w.phase ≠ .idle then w
+    -- with a context that is already done the (context-aware) dialer fails at once and the loop's
+    -- select on ctx.Done() returns: one DialContext call, no connection, Connect returns the error
+    else if w.ctxCancelled then { w with phase := .exited, dials := w.dials + 1, connectErr := true }
+    else { w with phase := .dialGate, dials := w.dials + 1 }
   | .app r =>
     if w.stopped then { w with rejected := w.rejected + 1 }
     else progress (pushTask { w with accepted := w.accepted ++ [r] } (.req r))
@@ -445,7 +461,23 @@ def step (w : World) : Ev → World
   | .dialFail =>
     if w.phase ≠ .dialGate then w
     else if w.stopped then { w with phase := .exited }
-    else { w with waits := w.waits ++ [w.waitExp], waitExp := w.waitExp + 1, dials := w.dials + 1 }
+    else { w with phase := .backoff, waits := w.waits ++ [w.waitExp], waitExp := w.waitExp + 1 }
+  | .waitElapsed =>
+    if w.phase = .backoff then { w with phase := .dialGate, dials := w.dials + 1 } else w
+  | .cancelCtx =>
+    -- reconnclient.go:97-101: after the first success the loop runs on context.Background()
+    if w.ctxCancelled ∨ w.connectReturned.isSome then w
+    else
+      let w := { w with ctxCancelled := true }
+      match w.phase with
+      | .idle => w                                            -- Connect not called yet: see `.start`
+      | .backoff => { w with phase := .exited, connectErr := true }      -- select: `case <-ctx.Done(): return`
+      | .dialGate => { w with phase := .exited, connectErr := true }     -- DialContext returns ctx.Err(); then the same select
+      | .connackGate k =>
+        -- BaseClient.Connect returns the context's error; the loop closes the client and leaves through the select
+        progress { kill { w with connReady := true } k with phase := .exited, connectErr := true }
+      | .exited => { w with connectErr := true }              -- the loop ended on Disconnect; Connect was still waiting
+      | .up _ => w                                            -- (not reachable: `.up` implies that Connect has returned)
   | .connackOk sp inbound =>
     match w.phase with
     | .connackGate k =>
@@ -490,9 +522,12 @@ def step (w : World) : Ev → World
       let w := pushTask w .disconnect
       let w := { w with stopped := true }
       let w := progress w
+      -- the loop's selects on `c.disconnected` (reconnclient.go:137-139 while connected, :156-157 while
+      -- backing off) return; a DialContext in flight is not interrupted: the loop goes on with its result
+      -- (`.dialOk`: SetClient and CONNECT on the new transport; `.dialFail`: the back-off select returns)
       match w.phase with
       | .up _ => { w with phase := .exited }
-      | .dialGate => { w with phase := .exited }
+      | .backoff => { w with phase := .exited }
       | _ => w
 
 structure Script where
